@@ -41,13 +41,13 @@ FRAME_CONTRACTS = [clauses_only(c, FRAME, "C15", "Frame") for c in (
     transform.Reduce, transform.ReduceTuple, transform.Cumulative, transform.ArgExtremum, transform.Diff,
     regroup.Flatten, regroup.Unflatten, regroup.Reshape, join.Stack, join.Concatenate, arith.ScalarOperation, arith.Operation,
     interp.Interp1D, reshape.RollAxis, missing.FillNa, missing.SetNa, missing.CompressAxis, missing.DropNa1D,
-    align.ReindexAxis, align.ReindexLike, reshape.Broadcast, reshape.BroadcastArrays, missing.DropNaND, arith.Comparison)]
+    align.ReindexAxis, align.ReindexLike, reshape.Broadcast, reshape.BroadcastArrays, missing.DropNaND, arith.Comparison, arith.UnaryOperation)]
 
 META_CONTRACTS = [clauses_only(c, META, "C16", "Meta") for c in (
     transform.Reduce, transform.ReduceTuple, transform.Cumulative, transform.Diff,
     regroup.Flatten, regroup.Unflatten, regroup.Reshape, join.Stack, join.Concatenate, arith.ScalarOperation, arith.Operation,
     interp.Interp1D, reshape.Transpose, reshape.SwapAxes, reshape.RollAxis, reshape.NewAxis, reshape.Squeeze, reshape.Repeat,
-    missing.FillNa, missing.SetNa, missing.CompressAxis, missing.DropNa1D, align.ReindexAxis, align.ReindexLike, reshape.Broadcast, arith.Comparison)]
+    missing.FillNa, missing.SetNa, missing.CompressAxis, missing.DropNa1D, align.ReindexAxis, align.ReindexLike, reshape.Broadcast, arith.Comparison, arith.UnaryOperation)]
 
 
 # Dataset construction and Dataset-wide operations leave their operands untouched (the clauses named operand:... / inputs-untouched)
